@@ -334,10 +334,12 @@ def check(prog, rep):
     shared.rule_patch_isolation(prog, rep, "R8")
     # ingestion: the structural conditions under which every input atom becomes exactly one model atom (shared with C07)
     from . import c07
-    c07.rule_identity(prog, rep)       # rule id R5 of C07 -> listed here as C03.R5i
-    rep.rules[-1].rid = "R9"
-    for ob in rep.rules[-1].obs:
-        ob.rule = "R9"
+    grouping = c07.ingestion_decided_on_models(prog, rep, "R16")
+    if not grouping:
+        c07.rule_identity(prog, rep)       # rule id R5 of C07 -> listed here as C03.R9
+        rep.rules[-1].rid = "R9"
+        for ob in rep.rules[-1].obs:
+            ob.rule = "R9"
     c07.rule_first_wins(prog, rep)
     rep.rules[-1].rid = "R10"
     for ob in rep.rules[-1].obs:
@@ -347,7 +349,7 @@ def check(prog, rep):
     for ob in rep.rules[-1].obs:
         ob.rule = "R11"
     rep.guarded(shared.rule_ligand_block_model, prog, rep, "R15")
-    for fn_, rid_ in ((c07.rule_eof, "R12"), (c07.rule_flush, "R13"), (c07.rule_models, "R14")):
+    for fn_, rid_ in ((c07.rule_eof, "R12"),) + (() if grouping else ((c07.rule_flush, "R13"), (c07.rule_models, "R14"))):
         fn_(prog, rep)  # reader stops only at end of file; every pending residue is flushed; only further models are left out
         rep.rules[-1].rid = rid_
         for ob in rep.rules[-1].obs:
